@@ -456,6 +456,9 @@ func (r *scenarioRun) createInitial(io initObj) {
 			sim.SetNested(obj, "drifted", "data", "value")
 		} else {
 			sim.SetNested(obj, "drifted", "spec", "value")
+			// a list the hook specifies drifted as well: an item edited, another one injected (the
+			// merge identifies items of this list by "port", so the edit is made to the other field)
+			sim.SetNested(obj, []interface{}{sim.Obj{"name": "injected", "port": int64(9)}, sim.Obj{"name": "renamed", "port": int64(80)}}, "spec", "ports")
 		}
 	case "owned-foreignfield":
 		sim.AddOwner(obj, r.parent, true)
